@@ -38,6 +38,14 @@ func (f *Frame) execInstr(in ssa.Instruction, reach string, st *State) string {
 		ref := f.newRef(st, "alloc."+x.Comment)
 		p := Val{T: x.Type(), C: []string{ref}}
 		f.vals[x] = p
+		if at, ok := pt.Elem().Underlying().(*types.Array); ok {
+			if _, isS := at.Elem().Underlying().(*types.Struct); !isS {
+				for _, h := range e.memHeaps(at.Elem()) {
+					e.setHeap(st, h, sx("store", e.heapTerm(st, h), ref, e.zeroComp(sx("Array", e.idxSort(), h.elem))))
+				}
+				return reach
+			}
+		}
 		e.storePtr(st, p, pt.Elem(), e.zeroVal(pt.Elem()))
 	case *ssa.BinOp:
 		a, b := f.val(x.X), f.val(x.Y)
@@ -385,6 +393,7 @@ func (f *Frame) execConvert(x *ssa.Convert, reach string, st *State) {
 			reg := f.newRef(st, "bytes")
 			h := e.memHeaps(sl.Elem())[0]
 			e.setHeap(st, h, sx("store", e.heapTerm(st, h), reg, sx("select", e.strMem(), v.C[0])))
+			e.alias(reg, v.C[0])
 			cp := e.fresh("cap", e.idxSort())
 			e.assume("true", and(e.ile(v.C[2], cp), e.ile(cp, e.idxLit(1<<56))))
 			f.vals[x] = Val{T: x.Type(), C: []string{reg, v.C[1], v.C[2], cp}}
@@ -400,6 +409,7 @@ func (f *Frame) execConvert(x *ssa.Convert, reach string, st *State) {
 		reg := f.newRef(st, "str")
 		h := e.memHeaps(sl.Elem())[0]
 		e.assume("true", eq(sx("select", e.strMem(), reg), sx("select", e.heapTerm(st, h), v.C[0])))
+		e.alias(reg, v.C[0])
 		f.vals[x] = Val{T: x.Type(), C: []string{reg, v.C[1], v.C[2]}}
 		return
 	}
